@@ -89,9 +89,12 @@ class Ref:
         self.forced = False       # stop re-run: every preempt taken
         self.replays = 0
         self.max_depth = 0
+        self.wrapped = False
 
     # ---------------------------------------------------------------- values
     def wrap(self, v):
+        if not (-(self.M >> 1) <= v < (self.M >> 1)):
+            self.wrapped = True       # a value did not fit the word (used by C18: word-size monotonicity)
         v %= self.M
         return v - self.M if v >= self.M >> 1 else v
 
@@ -108,9 +111,10 @@ class Ref:
         raise Terminal('error')
 
     def out(self, bs):
+        a = sum(self.alloc)
         for b in bs:
             self.events.append(('o', b))
-        self.alloc_marks.append((len(self.events), sum(self.alloc)))
+            self.alloc_marks.append(a)
 
     # ---------------------------------------------------------------- state snapshots
     def snapshot(self):
@@ -379,6 +383,17 @@ class Ref:
     def exec_stmt(self, st):
         n = cname(st)
         self.tick()
+        if n in ('CodeBlock', 'IfBlock', 'LoopBlock', 'TryBlock', 'PreemptBlock'):
+            self.exec_block(st)
+            return
+        mark = len(self.alloc)
+        try:
+            self.exec_stmt1(st, n)
+        finally:
+            if not (n == 'Declaration' and isinstance(self.frames and self.frames[-1][-1].get(st.var.name), Arr)):
+                del self.alloc[mark:]
+
+    def exec_stmt1(self, st, n):
         if n == 'Declaration':
             v = self.eval(st.init)
             self.frames[-1][-1][st.var.name] = v
@@ -505,11 +520,15 @@ class Ref:
             a = self.eval(e.expr)
             return a.view_const()
         if n == 'LengthLookup':
+            mark = len(self.alloc)
             s = self.eval(e.source)
+            if cname(e.source) == 'ArrayLiteral':
+                del self.alloc[mark:]
             if s is UNINIT:
                 raise Abort('uninit')
             return self.wrap(len(s.data) if isinstance(s, Arr) else len(s))
         if n == 'ArrayLookup':
+            mark = len(self.alloc)
             src = self.eval(e.source)
             if src is UNINIT:
                 raise Abort('uninit')
@@ -517,6 +536,8 @@ class Ref:
             data = src.data if isinstance(src, Arr) else src
             self.check_index(idx, len(data))
             v = data[idx]
+            if cname(e.source) == 'ArrayLiteral':
+                del self.alloc[mark:]
             if v is UNINIT:
                 raise Abort('uninit')
             return v
@@ -580,6 +601,20 @@ class Ref:
         except KeyError:
             raise Abort('unsupported', 'unresolved call ' + name)
         if cname(decl) == 'BuiltinStub':
+            mark0 = len(self.alloc)
+            try:
+                return self.call_builtin(e, name, flavor)
+            finally:
+                del self.alloc[mark0:]
+        mark = len(self.alloc)
+        vals = [self.eval(a) for a in e.args]
+        try:
+            return self.call_decl(decl, vals)
+        finally:
+            del self.alloc[mark:]
+
+    def call_builtin(self, e, name, flavor):
+        if True:
             args = [self.eval(a) for a in e.args]
             for a in args:
                 if a is UNINIT:
@@ -625,8 +660,6 @@ class Ref:
                 self.events.append(('f', name))
                 return None
             raise Abort('unsupported', 'builtin ' + name)
-        vals = [self.eval(a) for a in e.args]
-        return self.call_decl(decl, vals)
 
 
 def front_end(src, opts=None):
